@@ -101,7 +101,7 @@ fn write_gen(paths: &Paths, gen: &Path, sources: &[Source], rng: &mut Rng, hash_
     Ok(mods)
 }
 
-fn build_and_run(paths: &Paths, sim_dir: &Path, gen: &Path, mods: &[String], hash_seed: u64, seed: u64, runs: u64, replay: Option<&Path>) -> Result<Value, String> {
+fn build_and_run(paths: &Paths, sim_dir: &Path, gen: &Path, mods: &[String], hash_seed: u64, seed: u64, runs: u64, replay: Option<&Path>, extra: &[String]) -> Result<Value, String> {
     let target = paths.build.join("sim-target");
     let o = Command::new(target.join("release/bufgen")).arg(gen).args(["--variants", "drva_,drvb_,drvf_"]).args(mods).output().map_err(|e| format!("bufgen: {e}"))?;
     if !o.status.success() {
@@ -129,7 +129,7 @@ fn build_and_run(paths: &Paths, sim_dir: &Path, gen: &Path, mods: &[String], has
     let mut cmd = Command::new(target.join("release/tierd"));
     match replay {
         Some(f) => cmd.arg("replay").arg(f),
-        None => cmd.args(["run", &seed.to_string(), &runs.to_string()]),
+        None => cmd.args(["run", &seed.to_string(), &runs.to_string()]).args(extra),
     };
     let o = cmd.env("VERIF_DIR", &paths.verif).output().map_err(|e| format!("tierd: {e}"))?;
     if !o.status.success() {
@@ -151,6 +151,8 @@ pub fn run_tier(paths: &Paths, c: &Corpus, seed: u64, rounds: u64, sources_per_r
     let mut families: Vec<Value> = Vec::new();
     let mut hash_seeds: Vec<String> = Vec::new();
     let mut build_failures: Vec<String> = Vec::new();
+    let mut edit_rounds = 0u64;
+    let mut edit_compared = 0u64;
     for round in 0..rounds {
         if round > 0 && Instant::now() > deadline {
             break;
@@ -162,7 +164,7 @@ pub fn run_tier(paths: &Paths, c: &Corpus, seed: u64, rounds: u64, sources_per_r
         if mods.is_empty() {
             continue;
         }
-        let res = match build_and_run(paths, &sim_dir(paths), &gen, &mods, hash_seed, seed, runs_per_family, None) {
+        let res = match build_and_run(paths, &sim_dir(paths), &gen, &mods, hash_seed, seed, runs_per_family, None, &[]) {
             Ok(v) => v,
             Err(e) => {
                 // generated code that does not compile is C10's business, not a C11 verdict:
@@ -205,9 +207,51 @@ pub fn run_tier(paths: &Paths, c: &Corpus, seed: u64, rounds: u64, sources_per_r
                 out.violations.push((sig, path));
             }
         }
+        // ---- history "edit only the .pdl file, rebuild": the file-based macro must follow the file ----
+        if out.violations.is_empty() {
+            let flips: Vec<&Source> = sources.iter().filter(|s| mods.contains(&s.module)).collect();
+            if let Some(src) = flips.get((rng.below(flips.len().max(1) as u64)) as usize) {
+                let v2 = Sibling::FlipEndian.apply(&src.text);
+                let file = format!("{}.pdl", src.module);
+                std::fs::write(gen.join(&file), &v2).map_err(|e| e.to_string())?;
+                let o = Command::new(paths.pdlc()).args(["--output-format", "rust", &file]).current_dir(&gen).output().map_err(|e| e.to_string())?;
+                if o.status.success() && !o.stdout.is_empty() {
+                    std::fs::write(gen.join(format!("{}.rs", src.module)), &o.stdout).map_err(|e| e.to_string())?;
+                    let extra = vec!["--only".to_string(), "drvf_".to_string(), "--module".to_string(), src.module.clone()];
+                    match build_and_run(paths, &sim_dir(paths), &gen, &mods, hash_seed, seed, runs_per_family, None, &extra) {
+                        Ok(res2) => {
+                            edit_rounds += 1;
+                            edit_compared += res2["history_steps_compared"].as_u64().unwrap_or(0);
+                            for v in res2["violations"].as_array().cloned().unwrap_or_default() {
+                                let detail = format!("after editing only the .pdl file (byte order flipped) and rebuilding incrementally: {}", v["detail"].as_str().unwrap_or(""));
+                                let sig = json!({"tier": "D", "invariant": "I6", "entry": src.origin["entry"].clone(), "backend": v["variant"], "detail": detail});
+                                if known.matches(&sig).is_some() {
+                                    continue;
+                                }
+                                if out.violations.len() < 10 {
+                                    let path = paths.out.join("replays").join(format!("C11-{seed}-D{round}-edit{}.json", out.violations.len()));
+                                    let doc = json!({
+                                        "property": "C11", "tier": "D", "seed": seed, "run": round, "history": "edit_and_rebuild",
+                                        "hash_seed_of_rustc": hash_seed.to_string(),
+                                        "sources": [{"module": src.module, "origin": src.origin, "text": src.text, "text_after_edit": v2}],
+                                        "types": v["types"], "seed_values": v["seed_values"], "events": v["events"],
+                                        "violation": {"invariant": "I6", "module": src.module, "variant": v["variant"], "event": v["event"], "detail": detail},
+                                        "replay": format!("bin/check C11 --replay {}", path.display()),
+                                    });
+                                    write_json(&path, &doc).map_err(|e| e.to_string())?;
+                                    out.violations.push((sig, path));
+                                }
+                            }
+                        }
+                        Err(e) => build_failures.push(format!("round {round} (edit-and-rebuild): {}", e.lines().take(6).collect::<Vec<_>>().join(" | "))),
+                    }
+                }
+            }
+        }
     }
     out.wall_s = t0.elapsed().as_secs_f64();
     out.stats = json!({
+        "edit_and_rebuild_histories": edit_rounds, "edit_and_rebuild_steps_compared": edit_compared,
         "rounds": out.rounds, "rounds_requested": rounds, "wall_s": out.wall_s,
         "rustc_hash_seeds": hash_seeds,
         "module_families": families,
@@ -232,7 +276,22 @@ pub fn replay(paths: &Paths, v: &Value, file: &Path) -> i32 {
             return 0;
         }
     };
-    match build_and_run(paths, &sim_dir(paths), &gen, &mods, hash_seed, 0, 0, Some(file)) {
+    if v["history"] == "edit_and_rebuild" {
+        // first build with the original text, then edit only the .pdl file and print the new CLI code
+        if let Err(e) = build_and_run(paths, &sim_dir(paths), &gen, &mods, hash_seed, 0, 1, None, &[]) {
+            eprintln!("envsim: harness error in tier D replay: {e}");
+            return 2;
+        }
+        for s in v["sources"].as_array().cloned().unwrap_or_default() {
+            let (m, t2) = (s["module"].as_str().unwrap_or("m").to_string(), s["text_after_edit"].as_str().unwrap_or("").to_string());
+            let file_name = format!("{m}.pdl");
+            let _ = std::fs::write(gen.join(&file_name), &t2);
+            if let Ok(o) = Command::new(paths.pdlc()).args(["--output-format", "rust", &file_name]).current_dir(&gen).output() {
+                let _ = std::fs::write(gen.join(format!("{m}.rs")), &o.stdout);
+            }
+        }
+    }
+    match build_and_run(paths, &sim_dir(paths), &gen, &mods, hash_seed, 0, 0, Some(file), &[]) {
         Ok(r) => {
             let _ = std::fs::remove_dir_all(&gen);
             if r["reproduced"] == true {
